@@ -14,6 +14,10 @@ stdout: JSON list of
     "derived": [ {"fn": entry point, "fs": index, "macros": bool, "inner": index into calls of the first
                   Tokenizer.parse call made by this entry point (or null), "in": [token...], "out": [token...]} ...] }
     "raw_handovers": [ {"api": "PreFunction"|"parse_class_content", "fs", "content", "line", "col", "macros"} ...]
+    "error_msgs": [ {"token": token | null, "tl", "tc" (tokenizer.line / col), "cl" (col_length), "dcl", "el" (entire_line),
+                     "head": first line of the text error_msg returned (`In <file>:<line>[:<col>]`),
+                     "tail": what follows the message on its line (` at line L col C.`), "message", "fs", "macros"} ...]
+      -- strengthening round 3: every call of exception.error_msg
       -- strengthening round 2: bodies handed over as raw source text by construction (functions, methods, decorated and
          @lazy functions, classes): content must sit at (line, col) of file_string
       -- strengthening round 1: every OTHER tokenizer entry point that builds tokens from tokens
@@ -62,7 +66,7 @@ def main():
     from jmc.compile.exception import EXCEPTIONS
     from jmc.compile.header import Header
 
-    state = {"calls": None, "fs": None, "fs_idx": None, "derived": None, "raw": None}
+    state = {"calls": None, "fs": None, "fs_idx": None, "derived": None, "raw": None, "errs": None}
     orig_parse = T.Tokenizer.parse
 
     def tok_list(programs):
@@ -206,6 +210,34 @@ def main():
         L.Lexer.parse_class_content = pcc
     except Exception:  # noqa
         pass
+    # ---- strengthening round 3: every call of exception.error_msg (the function that writes the header `In file:L:C` and the
+    # sentence `<message> at line L col C.` of every diagnostic): the token it is given, its flags and the first two lines it wrote
+    try:
+        from jmc.compile import exception as X
+        orig_em = X.error_msg
+
+        def em(message, token, tokenizer, col_length, display_col_length, entire_line, *a, **kw):
+            msg = orig_em(message, token, tokenizer, col_length, display_col_length, entire_line, *a, **kw)
+            try:
+                if state["errs"] is not None and len(state["errs"]) < 50:
+                    fs = getattr(tokenizer, "file_string", None)
+                    if isinstance(fs, str) and fs not in state["fs_idx"]:
+                        state["fs_idx"][fs] = len(state["fs"])
+                        state["fs"].append(fs)
+                    head = msg.split("\n", 1)[0]                 # `In <file>:<line>[:<col>]`
+                    rest = msg[len(head) + 1:]
+                    tail = rest[len(message):].split("\n", 1)[0] if isinstance(message, str) and rest.startswith(message) else None
+                    state["errs"].append({
+                        "token": None if token is None else tk(token), "tl": getattr(tokenizer, "line", None),
+                        "tc": getattr(tokenizer, "col", None), "cl": bool(col_length), "dcl": bool(display_col_length),
+                        "el": bool(entire_line), "head": head, "tail": tail, "message": str(message)[:200],
+                        "fs": state["fs_idx"].get(fs) if isinstance(fs, str) else None, "macros": bool(Header().macros)})
+            except Exception:  # noqa
+                pass
+            return msg
+        X.error_msg = em
+    except Exception:  # noqa
+        pass
     signal.signal(signal.SIGALRM, _alarm)
     jobs = json.load(sys.stdin)
     real_stdout = sys.stdout
@@ -216,6 +248,7 @@ def main():
         state["calls"] = [] if trace else None
         state["derived"] = [] if trace else None
         state["raw"] = [] if trace else None
+        state["errs"] = [] if trace else None
         state["fs"], state["fs_idx"] = [], {}
         signal.alarm(int(job.get("timeout", 10)))
         try:
@@ -240,6 +273,7 @@ def main():
         r["calls"] = state["calls"] or []
         r["derived"] = state["derived"] or []
         r["raw_handovers"] = state["raw"] or []
+        r["error_msgs"] = state["errs"] or []
         r["file_strings"] = state["fs"]
         out.append(r)
     sys.stdout = real_stdout
